@@ -7,6 +7,7 @@
 //!   mc replay <file>                              re-execute a counterexample file
 //!   mc plan   <PROP> [--tier ..]                  print the number of cases and a few of them
 
+mod crashx;
 mod driver;
 mod engine;
 mod histx;
@@ -34,6 +35,7 @@ pub fn extra_evidence(_prop: &str, _tier: &str) -> Option<Value> {
 fn make_engine(prop: &str) -> Option<Box<dyn Engine>> {
     match prop {
         "C01" | "C02" | "C16" | "C19" => Some(Box::new(histx::HistX::new())),
+        "C03" | "C04" | "C17" => Some(Box::new(crashx::CrashX::new())),
         "C07" | "C08" | "C18" => Some(Box::new(proofx::ProofX::new())),
         _ => None,
     }
